@@ -432,6 +432,7 @@ CfgBuiltin == {Builtin, Reentrant}
 CfgAll == Plain \cup Defective
 CfgFaults == Faulty
 CfgNil == NilFaulty
+CfgIface == IfaceFaulty
 CfgCloseErrs == CloseErrs
 \* a transient behind OPTIONAL parameter-object fields that fails at its n-th invocation: the field stays zero in that
 \* construction (and only in that one), earlier and later consumers get instances of their own
